@@ -22,72 +22,165 @@ from . import backends, c13, common
 def r1(p, rep):
     rep.rule("C15.R1", "adapter outputs are checked before they are trusted", "T-MPT (dominators on the value pipeline)", floor=4)
     f = p.func("_ensure_output.inner", "adapter._util")
-    c13.checked_before_trusted(p, rep, "C15.R1", f, require_type_guard="expected_type")
-    # multi-output: tuple type and arity asserts dominate the cast to a list of values
-    cfg = CFG(f.node)
-    items = c13._assert_calls(p, f)
-    var = "tensors_out"
-    casts = [n for n, v, kind, what in items if v == var and kind == "cast"]
-    asserts = {what: n for n, v, kind, what in items if v == var and kind == "assert_"}
-    if not casts:
-        raise AnalysisError("unrecognised idiom: no cast of tensors_out in _ensure_output.inner")
-    for c in casts:
-        cn = cfg.node_for(c)
-        for need in ("type", "arity"):
-            a = asserts.get(need)
-            ok = a is not None and cfg.dominates(cfg.node_for(a), cn)
-            rep.add("C15.R1", f"{f.qualname}:{var}:{need}-checked-before-cast", f"{f.module.rel}:{c.lineno}", ok, f"tuple {need} assert dominates the cast" if ok else f"the returned tuple is split into outputs without the run-time {need} check")
-    # statically known tuples: arity mismatch raises
-    raises = [r for r in walk_no_nested(f.node) if isinstance(r, ast.Raise)]
-    arity = [r for r in raises if any("len(tensors_out) != len(expected_out_shapes)" == norm(t) and pol for t, pol in cfg.guards(cfg.node_for(r)))]
-    rep.add("C15.R1", f"{f.qualname}:static-arity", f.loc, bool(arity), "a statically visible tuple of the wrong length raises")
-    shape = [r for r in raises if any("shape" in norm(t) and "!=" in norm(t) and pol for t, pol in cfg.guards(cfg.node_for(r)))]
-    rep.add("C15.R1", f"{f.qualname}:static-shape", f.loc, bool(shape), "a statically known wrong output shape raises")
+    fs = common.with_helpers(p, f)
+    found_tensor = False
+    found_multi = False
+    any_arity_raise = any_shape_raise = False
+    for g in fs:
+        if c13.checked_before_trusted(p, rep, "C15.R1", g, require_type_guard="expected_type", optional=True):
+            found_tensor = True
+        # multi-output: tuple type and arity asserts dominate the cast to a list of values
+        cfg = CFG(g.node)
+        items = c13._assert_calls(p, g)
+        for c, var, kind, what in items:
+            if kind != "cast" or "Tensor" in norm(c.value):
+                continue
+            found_multi = True
+            cn = cfg.node_for(c)
+            asserts = {w: n for n, v, k, w in items if v == var and k == "assert_"}
+            for need in ("type", "arity"):
+                a = asserts.get(need)
+                ok = a is not None and cfg.dominates(cfg.node_for(a), cn)
+                rep.add("C15.R1", f"{f.qualname}:multi-output:{need}-checked-before-cast", f"{g.module.rel}:{c.lineno}", ok, f"tuple {need} assert dominates the cast" if ok else f"the returned tuple is split into outputs without the run-time {need} check")
+        for r in walk_no_nested(g.node):
+            if isinstance(r, ast.Raise):
+                facts = [(norm(t), pol) for t, pol in cfg.guards(cfg.node_for(r))]
+                if any("len(" in t and "!=" in t and pol for t, pol in facts):
+                    any_arity_raise = True
+                if any("shape" in t and "!=" in t and pol for t, pol in facts):
+                    any_shape_raise = True
+    if not found_tensor or not found_multi:
+        raise AnalysisError(f"unrecognised idiom: _ensure_output pipeline not found (tensor cast: {found_tensor}, multi-output cast: {found_multi})")
+    rep.add("C15.R1", f"{f.qualname}:static-arity", f.loc, any_arity_raise, "a statically visible tuple of the wrong length raises")
+    rep.add("C15.R1", f"{f.qualname}:static-shape", f.loc, any_shape_raise, "a statically known wrong output shape raises")
+
+
+def _partition_loop(fn):
+    """(loop, stores) if fn contains `for k, v in X.items()` that stores every key exactly once into one of two
+    dicts selected by iskwarg(k) (if/else form or `target = A if iskwarg(k) else B; target[k] = v`)."""
+    for l in walk_no_nested(fn.node):
+        if not (isinstance(l, ast.For) and norm(l.iter).endswith(".items()") and isinstance(l.target, ast.Tuple) and len(l.target.elts) == 2):
+            continue
+        key = norm(l.target.elts[0])
+
+        def stores(block):
+            return [norm(t.value) for st in block for t in (st.targets if isinstance(st, ast.Assign) else []) if isinstance(t, ast.Subscript) and norm(t.slice) == key]
+
+        if len(l.body) == 1 and isinstance(l.body[0], ast.If) and norm(l.body[0].test) == f"iskwarg({key})":
+            iff = l.body[0]
+            a, b = stores(iff.body), stores(iff.orelse)
+            ok = len(a) == 1 and len(b) == 1 and a[0] != b[0] and len(iff.body) == 1 and len(iff.orelse) == 1
+            return l, ok, a + b
+        if len(l.body) == 2 and isinstance(l.body[0], ast.Assign) and isinstance(l.body[0].value, ast.IfExp) and norm(l.body[0].value.test) == f"iskwarg({key})":
+            sel = l.body[0]
+            tname = norm(sel.targets[0])
+            st = stores([l.body[1]])
+            a, b = norm(sel.value.body), norm(sel.value.orelse)
+            ok = st == [tname] and a != b
+            return l, ok, [a, b]
+        if any("iskwarg(" in norm(x) for x in ast.walk(l)):
+            return l, False, stores(l.body)
+    # complementary dict comprehensions
+    comps = [n for n in walk_no_nested(fn.node) if isinstance(n, ast.DictComp) and norm(n.generators[0].iter).endswith(".items()") and len(n.generators[0].ifs) == 1 and "iskwarg(" in norm(n.generators[0].ifs[0])]
+    if len(comps) == 2:
+        c1, c2 = (norm(c.generators[0].ifs[0]) for c in comps)
+        ok = c1 == f"not {c2}" or c2 == f"not {c1}"
+        return comps[0], ok, [c1, c2]
+    return None, False, []
+
+
+def _clash_raise(p, fn):
+    """an `if <names that are keyword options exist>: raise SemanticError` in fn -> the If node, else None"""
+    cfg = CFG(fn.node)
+    for r in walk_no_nested(fn.node):
+        if not isinstance(r, ast.Raise) or common.raised_class(p, fn.module, r, fn.node) != ("errors", "SemanticError"):
+            continue
+        iff = enclosing(r, ast.If)
+        if iff is None:
+            continue
+        t = iff.test
+        mentions = "iskwarg(" in norm(t)
+        if not mentions:
+            # len(invalid) > 0 / invalid  where invalid = [name for name in used if iskwarg(name)]
+            for x in ast.walk(t):
+                if isinstance(x, ast.Name):
+                    defs = [a.value for a in walk_no_nested(fn.node) if isinstance(a, ast.Assign) and any(isinstance(tt, ast.Name) and tt.id == x.id for tt in a.targets)]
+                    if any("iskwarg(" in norm(d) for d in defs):
+                        mentions = True
+        if mentions:
+            return iff
+    return None
 
 
 def r2(p, rep):
     rep.rule("C15.R2", "keyword-only options can never be captured as sizes", "T-DOM + partition", floor=5)
     f = p.func("op.inner", "adapter.einx_from_namedtensor")
     cfg = CFG(f.node)
-    # the split loop: for key, value in kwargs.items(): if iskwarg(key): A[key] = value else: B[key] = value
-    loops = [n for n in walk_no_nested(f.node) if isinstance(n, ast.For) and norm(n.iter).endswith("kwargs.items()")]
-    split = None
-    for l in loops:
-        if len(l.body) == 1 and isinstance(l.body[0], ast.If) and norm(l.body[0].test).startswith("iskwarg("):
-            split = l
-    if split is None:
-        raise AnalysisError("unrecognised idiom: no `for key, value in kwargs.items(): if iskwarg(key)` split in op.inner")
-    iff = split.body[0]
-    key = split.target.elts[0].id
-    def stores(block):
-        return [norm(t.value) for st in block for t in (st.targets if isinstance(st, ast.Assign) else []) if isinstance(t, ast.Subscript) and norm(t.slice) == key]
-    a, b = stores(iff.body), stores(iff.orelse)
-    ok = len(a) == 1 and len(b) == 1 and a[0] != b[0] and len(iff.body) == 1 and len(iff.orelse) == 1
-    rep.add("C15.R2", f"{f.qualname}:partition", f"{f.module.rel}:{split.lineno}", ok, f"each key goes to exactly one of {a + b}" if ok else f"the keyword split is not a partition (then-branch stores {a}, else-branch stores {b}): an option can be both forwarded and used as an axis size, or lost")
-    # the clash test (raise SemanticError if a used axis name is a keyword) dominates the split
-    clashes = [r for r in walk_no_nested(f.node) if isinstance(r, ast.Raise) and any("iskwarg(" in norm(t) and pol for t, pol in cfg.guards(cfg.node_for(r)))]
-    ok = False
-    why = "no `if any(iskwarg(name) ...): raise SemanticError` before the split"
-    for r in clashes:
-        kind = common.raised_class(p, f.module, r, f.node)
-        iff2 = enclosing(r, ast.If)
-        fe = [n for n in cfg.nodes if n.kind == "edge" and n.ast is iff2 and n.polarity is False]
-        sn = cfg.node_of_stmt.get(id(split))
-        if kind == ("errors", "SemanticError") and fe and sn is not None and cfg.dominates(fe[0], sn):
-            names_src = norm(iff2.test)
-            ok, why = True, f"`{names_src[:60]}` -> SemanticError dominates the split"
-    rep.add("C15.R2", f"{f.qualname}:clash-before-split", f.loc, ok, why)
+    helpers = common.with_helpers(p, f)
+    # the split: in op.inner itself or in a helper called from it
+    split_stmt, part_ok, stores = None, False, []
+    loop, ok_, st_ = _partition_loop(f)
+    if loop is not None:
+        split_stmt, part_ok, stores = loop, ok_, st_
+    else:
+        for h in helpers[1:]:
+            loop, ok_, st_ = _partition_loop(h)
+            if loop is not None:
+                calls = [n for n in walk_no_nested(f.node) if isinstance(n, ast.Call) and resolve_callee(p, n, f.module) == ("func", h)]
+                if calls:
+                    split_stmt, part_ok, stores = calls[0], ok_, st_
+                    break
+    if split_stmt is None:
+        raise AnalysisError("unrecognised idiom: op.inner (and its helpers) contain no split of kwargs by iskwarg(key)")
+    rep.add("C15.R2", f"{f.qualname}:partition", f"{f.module.rel}:{split_stmt.lineno}", part_ok, f"each key goes to exactly one of {stores}" if part_ok else f"the keyword split is not a partition ({stores}): an option can be both forwarded and used as an axis size, or lost")
+    # the clash test dominates the split
+    clash_node, why = None, "no `if <axis name is a keyword option>: raise SemanticError` before the split"
+    iff = _clash_raise(p, f)
+    if iff is not None:
+        fe = [n for n in cfg.nodes if n.kind == "edge" and n.ast is iff and n.polarity is False]
+        clash_node = fe[0] if fe else None
+        names_src = norm(iff.test)
+    else:
+        for h in helpers[1:]:
+            if _clash_raise(p, h) is not None:
+                calls = [n for n in walk_no_nested(f.node) if isinstance(n, ast.Call) and resolve_callee(p, n, f.module) == ("func", h)]
+                if calls:
+                    clash_node = cfg.node_for(calls[0])
+                    names_src = f"{h.name}(...)"
+    sn = cfg.node_for(split_stmt) if not isinstance(split_stmt, ast.For) else cfg.node_of_stmt.get(id(split_stmt))
+    ok = clash_node is not None and sn is not None and cfg.dominates(clash_node, sn)
+    rep.add("C15.R2", f"{f.qualname}:clash-before-split", f.loc, ok, f"`{names_src[:60]}` -> SemanticError dominates the split" if ok else why)
     # the names tested are all axis names of inputs and outputs
-    used = [n for n in walk_no_nested(f.node) if isinstance(n, ast.Assign) and norm(n.targets[0]) == "used_axis_names"]
-    ok = bool(used) and "exprs_in + exprs_out" in norm(used[0].value) and ".nodes()" in norm(used[0].value)
-    rep.add("C15.R2", f"{f.qualname}:clash-domain", f.loc, ok, "the clash test ranges over every axis name of all input and output expressions")
+    dom_ok = False
+    for g in helpers:
+        for n in walk_no_nested(g.node):
+            if isinstance(n, (ast.SetComp, ast.ListComp)) and ".nodes()" in norm(n) and ".name" in norm(n.elt):
+                src_text = norm(n)
+                if "exprs_in + exprs_out" in src_text:
+                    dom_ok = True
+                elif g is not f:
+                    calls = [c for c in walk_no_nested(f.node) if isinstance(c, ast.Call) and resolve_callee(p, c, f.module) == ("func", g)]
+                    if any("exprs_in + exprs_out" in norm(c) for c in calls):
+                        dom_ok = True
+    rep.add("C15.R2", f"{f.qualname}:clash-domain", f.loc, dom_ok, "the clash test ranges over every axis name of all input and output expressions")
     # _make_iskwarg: exactly the KEYWORD_ONLY parameters
     g = p.func("_make_iskwarg", "frontend.impl._util")
     lam = [n for n in walk_no_nested(g.node) if isinstance(n, ast.Return) and isinstance(n.value, ast.Lambda)]
-    if not lam:
-        raise AnalysisError("unrecognised idiom: _make_iskwarg does not return a lambda")
-    body = lam[0].value.body
-    arg = lam[0].value.args.args[0].arg
+    body = arg = None
+    if lam:
+        body = lam[0].value.body
+        arg = lam[0].value.args.args[0].arg
+    else:
+        # `def is_kwarg(name): return name in names` ; `return is_kwarg`
+        rets = [n for n in walk_no_nested(g.node) if isinstance(n, ast.Return) and isinstance(n.value, ast.Name)]
+        for r in rets:
+            inner = [h for h in p.funcs.values() if h.parent is g and h.name == r.value.id]
+            if inner:
+                irets = [x for x in walk_no_nested(inner[0].node) if isinstance(x, ast.Return)]
+                if len(irets) == 1 and len(inner[0].node.body) <= 2:
+                    body, arg, lam = irets[0].value, inner[0].params[0], [r]
+    if body is None:
+        raise AnalysisError("unrecognised idiom: _make_iskwarg does not return a lambda / single-return predicate")
     ok = isinstance(body, ast.Compare) and len(body.ops) == 1 and isinstance(body.ops[0], ast.In) and norm(body.left) == arg and isinstance(body.comparators[0], ast.Name)
     rep.add("C15.R2", f"{g.qualname}:predicate", f"{g.module.rel}:{lam[0].lineno}", ok, f"predicate is `{norm(body)}`" + ("" if ok else ": the shared predicate excludes or adds names, so for some adapter a keyword-only option is treated as an axis size (silently dropped when unused) or an axis name as an option"))
     if ok:
@@ -140,6 +233,15 @@ def r3_r4(p, rep):
                     callee = norm(par.func).split(".")[-1]
                     if callee in ("_make_iskwarg", "constant", "callable"):
                         continue
+                    # a helper of frontend/impl/_util.py that only inspects the function's signature
+                    r = resolve_callee(p, par, f.module)
+                    if r and r[0] == "func" and r[1].module.name.endswith("frontend.impl._util"):
+                        h = r[1]
+                        idx = par.args.index(n)
+                        hp = h.params[idx] if idx < len(h.params) else None
+                        inner_uses = [getattr(x, "_parent", None) for x in ast.walk(h.node) if isinstance(x, ast.Name) and x.id == hp and isinstance(x.ctx, ast.Load)]
+                        if hp and all(isinstance(u, ast.Call) and norm(u.func).split(".")[-1] in ("_make_iskwarg", "callable", "signature", "type") and u.func is not None and not (isinstance(u.func, ast.Name) and u.func.id == hp) for u in inner_uses):
+                            continue
                 if isinstance(par, ast.Call) and par.func is n:
                     bad.append(f"`{norm(par)[:50]}` CALLS the user function while adapting")
                 else:
@@ -162,8 +264,14 @@ def r3_r4(p, rep):
         ikdef = [n.value for n in walk_no_nested(f.node) if isinstance(n, ast.Assign) and norm(n.targets[0]) == "iskwarg"]
         text = norm(ikdef[0]) if ikdef else ""
         is_reduce = "reduce" in f.name or norm(front[0].value.func).endswith(".reduce") or "functorchdim" in f.module.name
+        # expand one helper level: iskwarg = helper(op, ...) defined in frontend/impl/_util.py
+        if ikdef and isinstance(ikdef[0], ast.Call):
+            r = resolve_callee(p, ikdef[0], f.module)
+            if r and r[0] == "func" and r[1].module.name.endswith("frontend.impl._util") and r[1].name != "_make_iskwarg":
+                text = text + " :: " + " ".join(norm(st) for st in r[1].node.body)
         if is_reduce:
-            ok = 'name != "axis"'.replace('"', "'") in text.replace('"', "'") and "_make_iskwarg(" in text
+            consts = {c.value for d in ikdef for c in ast.walk(d) if isinstance(c, ast.Constant) and isinstance(c.value, str)}
+            ok = consts == {"axis"} and "_make_iskwarg(" in text
             rep.add("C15.R4", f"{f.qualname}:iskwarg", site, ok and ik is not None, "reduce-style adapter reserves `axis` (supplied by einx) and forwards all other keyword-only options" if ok else f"iskwarg = {text[:70]}")
         else:
             ok = text == f"_make_iskwarg({prm})"
